@@ -1110,6 +1110,14 @@ class Hyperplane(Subspace):
         except (TypeError, GeometryError):
             pass
 
+        # an object which does not hold hyperplane data itself (e.g. a
+        # DualPoint holding normal vectors) is read through its
+        # coordinates, like an array
+        try:
+            hyperplane_data = hyperplane_data.proj_data
+        except AttributeError:
+            pass
+
         try:
             self.set(hyperplane_data, **kwargs)
             return
